@@ -30,7 +30,8 @@ class TranslatorError(Exception):
 
 CONV = {"str": "CStr", "float": "CFloat", "fint": "CFint", "fbool": "CFbool",
         "fboolorfloat": "CFboolorfloat", "fintlist": "CFintlist",
-        "f1dfloatduple": "CF1d", "f2dfloatarray": "CF2d", "lcstr": "CLcstr"}
+        "f1dfloatduple": "CF1d", "f2dfloatarray": "CF2d", "lcstr": "CLcstr",
+        "fnumber": "CFnumber"}
 
 
 def conv_name(func):
@@ -100,7 +101,7 @@ def probe_keys(feats):
     for a in f:
         keys += [a, a + " min", a + " max", a + " soft limit",
                  a + " polygon points", a + " foo", a + "  min",
-                 a + "min"]
+                 a + "min", a + " xmin", a + " climax", a + " Min"]
     for a in f[:2]:
         for b in f[:2]:
             keys += ["%s,%s soft limit" % (a, b),
